@@ -29,8 +29,12 @@ def _checksum(b: bytes, field_off: int) -> int:
     return (~sum(b[:field_off] + b[field_off + 4:])) & 0xFFFFFFFF
 
 
-def footer(size, disk_type, data_offset, length=512):
-    raw = struct.pack(FOOTER, b"conectix", 2, 0x00010000, data_offset, 0x2B3C4D5E, b"vrf ", 0x00010000, b"Wi2k", size,
+def footer(size, disk_type, data_offset, length=512, original_size=None):
+    """original_size (size at creation) differs from the current size in every image built here, as after a resize: smaller
+    for even sector counts, larger for odd ones; only the current size describes the disk."""
+    if original_size is None:
+        original_size = max(512, size // 1024 * 512) if (size // 512) % 2 == 0 else size + 0x7700
+    raw = struct.pack(FOOTER, b"conectix", 2, 0x00010000, data_offset, 0x2B3C4D5E, b"vrf ", 0x00010000, b"Wi2k", original_size,
                       size, 0x03FF103F, disk_type, 0, b"\x5a" * 16, 0).ljust(512, b"\0")
     raw = raw[:64] + struct.pack(">I", _checksum(raw, 64)) + raw[68:]
     return raw[:length]
